@@ -13,7 +13,6 @@ ChainOk(r) ==
       target == Fold(r.chain, AbsOf(pk.k))
   IN /\ pk.ok /\ Supported(pk.k) /\ \A i \in 1..Len(r.chain) : r.chain[i] \in Convs
      /\ r.terminated /\ r.ok                       \* every chain of any length succeeds
-     /\ NoDup(r.out)
      /\ \A i \in 1..Len(r.out) : ParseKey(r.out[i]).ok
      /\ LET printed == {ParseKey(r.out[i]).k : i \in 1..Len(r.out)} IN
         /\ Spellings(target) \subseteq printed                                    \* every spelling of the 28 keys the property names ...
@@ -29,7 +28,6 @@ LongChainOk(r) ==
       target == FoldRuns(r.runs, AbsOf(pk.k))
   IN /\ pk.ok /\ Supported(pk.k) /\ \A i \in 1..Len(r.runs) : r.runs[i][1] \in Convs /\ r.runs[i][2] >= 0
      /\ r.terminated /\ r.ok                       \* every chain of any length succeeds
-     /\ NoDup(r.out)
      /\ \A i \in 1..Len(r.out) : ParseKey(r.out[i]).ok
      /\ LET printed == {ParseKey(r.out[i]).k : i \in 1..Len(r.out)} IN
         /\ Spellings(target) \subseteq printed                                    \* every spelling of the 28 keys the property names ...
